@@ -1070,27 +1070,46 @@ func main() {
 			return
 		}
 
-		// ---- 1. the witnesses of the known findings, on a fixed tree (DESIGN.md section 6), and their neighbours
-		fixed := dir(sub(".hid", file("x.txt")), file("BUILD"), sub("d1", file("a.txt"), file("b(1).txt"), file("b1.txt"), sub("d2", file("c.txt"))),
-			sub("sub", file("BUILD"), file("s.txt")), file("x.txt"))
+		// ---- 1. the witnesses of the known findings (the trees of Proof/C21.v witness_*), in the root package and in
+		//         a nested one, with neighbouring queries that must agree with the reference
 		txt := lit(".txt")
-		for _, pkg := range []string{"", "pkg"} {
-			withTree(c, pkg, fixed, func(repo string, ents []ent) {
-				for _, q := range []query{
-					{pkg, []pat{{dstar, segOf([]atom{star()}, txt)}}, nil, false, false},
-					{pkg, []pat{{dstar, segOf(lit("b(1).txt"))}}, nil, false, false},
-					{pkg, []pat{{segOf([]atom{star()})}}, nil, false, false},
-					{pkg, []pat{{segOf([]atom{star()})}}, nil, true, false},
-					{pkg, []pat{{dstar}}, nil, true, false},
-					{pkg, []pat{{segOf([]atom{star()}), segOf([]atom{star()}, txt)}}, []pat{{segOf(lit("a"), []atom{star()})}}, false, false},
-					{pkg, []pat{{segOf(lit("d1")), dstar}}, []pat{{segOf(lit("d1")), segOf(lit("d2"))}}, false, false},
-					{pkg, []pat{{segOf(lit("d1")), dstar, segOf(lit("c.txt"))}}, nil, false, false},
-					{pkg, []pat{{dstar, segOf(lit("d"), []atom{{K: "?"}}, lit("c.txt"))}}, nil, false, false},
-					{pkg, []pat{{segOf(lit("d1"), []atom{{K: "[", Neg: true, Items: [][2]byte{{'q', 'q'}}}}, lit("a.txt"))}}, nil, false, false},
-				} {
-					runQuery(c, repo, fixed, ents, q, true)
-				}
-			})
+		anyTxt := segOf([]atom{star()}, txt)
+		qm := atom{K: "?"}
+		negQ := atom{K: "[", Neg: true, Items: [][2]byte{{'q', 'q'}}}
+		w1 := dir(sub(".hid", file("x.txt")), file("a.txt"))
+		w2 := dir(sub("d1", file("b(1).txt"), file("b1.txt")))
+		w3 := dir(sub("d1", file("a.txt")), file("x.txt"))
+		w5 := dir(sub("d", file("c.txt")), file("dxc.txt"))
+		w7 := dir(sub("d", sub("plz-out", file("a.txt"))), sub("plz-out", file("g.txt")))
+		w8 := dir(file("BUILD"), sub("d1", file("a.txt"), sub("d2", file("c.txt"))), sub("sub", file("BUILD"), file("s.txt")), sub("lib", file("a_test.go"), file("a.go")))
+		type fixedCase struct {
+			tree *node
+			inc  []pat
+			exc  []pat
+			hid  bool
+		}
+		for _, fc := range []fixedCase{
+			{w1, []pat{{dstar, anyTxt}}, nil, false},
+			{w1, []pat{{dstar, anyTxt}}, nil, true},
+			{w1, []pat{{segOf(lit(".hid")), anyTxt}}, nil, false},
+			{w2, []pat{{dstar, segOf(lit("b(1).txt"))}}, nil, false},
+			{w2, []pat{{segOf(lit("d1")), segOf(lit("b(1).txt"))}}, nil, false},
+			{w3, []pat{{segOf([]atom{star()})}}, nil, false},
+			{w3, []pat{{dstar}}, nil, true},
+			{w3, []pat{{dstar, anyTxt}}, nil, false},
+			{w3, []pat{{anyTxt}, {segOf([]atom{star()}), anyTxt}}, nil, false},
+			{w5, []pat{{dstar, segOf(lit("d"), []atom{qm}, lit("c.txt"))}}, nil, false},
+			{w5, []pat{{segOf(lit("d"), []atom{qm}, lit("c.txt"))}}, nil, false},
+			{w5, []pat{{segOf(lit("d"), []atom{negQ}, lit("c.txt"))}}, nil, false},
+			{w7, []pat{{segOf([]atom{star()}), dstar}}, nil, false},
+			{w8, []pat{{dstar, anyTxt}, {segOf(lit("lib")), dstar}}, []pat{{segOf([]atom{star()}, lit("_test.go"))}, {segOf(lit("d1")), segOf(lit("d2"))}}, false},
+			{w8, []pat{{segOf(lit("d1")), dstar, segOf(lit("c.txt"))}, {segOf(lit("sub")), dstar}}, []pat{{segOf(lit("BUILD"))}}, false},
+		} {
+			for _, pkg := range []string{"", "p"} {
+				withTree(c, pkg, fc.tree, func(repo string, ents []ent) {
+					runQuery(c, repo, fc.tree, ents, query{pkg, fc.inc, fc.exc, fc.hid, false}, true)
+				})
+			}
 		}
 
 		// ---- 2. generated trees x generated queries
